@@ -322,6 +322,7 @@ type Struct struct {
 	Shape   string // grammar production that made it (histogram)
 	Plain   bool   // no gombok annotation at all (derive-only struct with public fields)
 	Recur   bool   // refers to itself through a pointer / slice
+	Phantom bool   // generic with a type parameter no field uses, the others used in reversed order
 	Origin  string // "seed n perpkg samples" of the run that generated it (replay)
 }
 
